@@ -33,7 +33,10 @@ fn verif() -> PathBuf {
     exe.ancestors().nth(4).unwrap().to_path_buf()
 }
 fn tool() -> PathBuf {
-    verif().join("harness/target-repo/release/minidump-stackwalk")
+    match std::env::var("VERIF_TARGET_REPO") {
+        Ok(d) => PathBuf::from(d).join("release/minidump-stackwalk"),
+        Err(_) => verif().join("harness/target-repo/release/minidump-stackwalk"),
+    }
 }
 fn scratch() -> PathBuf {
     let d = verif().join(".scratch/cli").join(std::process::id().to_string());
